@@ -19,6 +19,8 @@ func main() {
 		os.Exit(timerstressMain(os.Args[2:]))
 	case "wsstress":
 		os.Exit(wsstressMain(os.Args[2:]))
+	case "jsonrt":
+		os.Exit(jsonrtMain(os.Args[2:]))
 	case "connstep":
 		os.Exit(connstepMain(os.Args[2:]))
 	default:
